@@ -38,7 +38,7 @@ def tokens(x, strform="plain"):
         body = ["PHOLDER", "("] + lst(a) + [","] + ref(b) + [",", sv, ")"]
     elif t == "cx":
         body = ["(", "PBASE", "(", str(i), ")", "PPA", "("] + ref(a) + [")", "PPB", "("] + ref(b) + [")", ")"]
-    elif t in ("inode", "isubnode", "isubsub", "ione", "itwo"):
+    elif t in ("inode", "isubnode", "isubsub", "idl", "idr", "idia", "ione", "itwo"):
         body = [t.upper(), "(", str(i), ")"]
     elif t in ("iholder", "isub"):
         body = [t.upper(), "("] + lst(a) + [","] + ref(b) + [")"]
